@@ -80,7 +80,8 @@ def bounds(tier):
 
 
 def shards(tier):
-    return [{"kind": "object_history", "dim": d} for d in (4, 3, 2)] + [{"dim": d, "sys": list(s)} for d in (2, 3, 4) for s in L.SYSTEMS[d]]
+    return ([{"kind": "object_history", "dim": d} for d in (4, 3, 2)] + [{"dim": d, "sys": list(s)} for d in (2, 3, 4) for s in L.SYSTEMS[d]]
+            + [{"kind": "copy_history", "dim": d, "sys": list(s), "depth": 3 if tier == "quick" else 4} for d in (2, 3, 4) for s in L.SYSTEMS[d]])
 
 
 def rows_for(dim, system, n):
@@ -359,8 +360,96 @@ def _astype_spelled(a, names, fnames):
     return a.astype([(nm_, np.float32) for nm_ in names])
 
 
+COPY_EVENTS = ["read[name]", "read.attr", "pickle", "copy.copy", "copy.deepcopy", ".copy()", "[:]", "write[name]", "write(view)", "write[elem]"]
+
+
+def check_copy_history(res: Result, dim, system, depth):
+    """Histories of reads, copies (pickle round trip, copy.copy, copy.deepcopy, .copy(), a full slice) and writes on one array name:
+    after every event all the read routes of the current array agree (arr[name], arr.view(ndarray)[name], the attribute, the
+    elements' attributes) with a plain structured-array mirror on which only the writes were replayed, and arrays left behind by a
+    copy keep the values they had."""
+    import copy
+    import pickle
+
+    for flavor in ("generic", "momentum"):
+        fnames = L.field_names(system, flavor)
+        rows = rows_for(dim, system, 3)
+        base = {"kind": "copy_history", "dim": dim, "sys": list(system), "flavor": flavor}
+
+        def coherent(arr, mirror, hist, what):
+            for nme in fnames:
+                want = mirror[mirror.dtype.names[fnames.index(nme)]]
+                routes = {f"arr[{nme!r}]": lambda: np.asarray(arr[nme]), f"arr.view(ndarray)[{nme!r}]": lambda: arr.view(np.ndarray)[arr.dtype.names[fnames.index(nme)]], f"arr.{nme}": lambda: np.asarray(getattr(arr, nme)),
+                          f"[arr[i].{nme}]": lambda: np.array([getattr(arr[i], nme) for i in range(len(arr))])}
+                for rname, f in routes.items():
+                    res.traces += 1
+                    try:
+                        got = f()
+                    except Exception as e:  # noqa: BLE001
+                        res.violation(f"copy_history|{L.sysname(system)}|{flavor}|raises", f"after {hist}: {rname} raised {type(e).__name__}: {e}", dict(base, history=hist))
+                        return False
+                    if got.shape != want.shape or not np.array_equal(got, want):
+                        res.violation(f"copy_history|{L.sysname(system)}|{flavor}|{what}", f"after {hist}: {rname} of the {what} = {got.tolist()}, its stored column is {want.tolist()}", dict(base, history=hist))
+                        return False
+                    res.nontrivial += 1
+            return True
+
+        frontier = [(e,) for e in COPY_EVENTS]
+        for d in range(1, depth + 1):
+            nxt = []
+            for hist in frontier:
+                res.states += 1
+                res.evaluations += 1
+                arr = B.make_np(system, flavor, rows)
+                mirror = np.array(arr.view(np.ndarray), copy=True)
+                left = []  # (array left behind by a copy, its mirror)
+                ok = True
+                for k, ev in enumerate(hist):
+                    res.transitions += 1
+                    try:
+                        if ev == "read[name]":
+                            for nme in fnames:
+                                arr[nme]
+                        elif ev == "read.attr":
+                            for nme in fnames:
+                                getattr(arr, nme)
+                        elif ev in ("pickle", "copy.copy", "copy.deepcopy", ".copy()"):
+                            new = {"pickle": lambda a: pickle.loads(pickle.dumps(a)), "copy.copy": copy.copy, "copy.deepcopy": copy.deepcopy, ".copy()": lambda a: a.copy()}[ev](arr)
+                            left.append((arr, mirror))
+                            arr, mirror = new, mirror.copy()
+                        elif ev == "[:]":
+                            arr = arr[:]
+                        elif ev == "write[name]":
+                            arr[fnames[0]] = arr[fnames[0]] * 2 + (k + 1)
+                            mirror[mirror.dtype.names[0]] = mirror[mirror.dtype.names[0]] * 2 + (k + 1)
+                        elif ev == "write(view)":
+                            arr.view(np.ndarray)[arr.dtype.names[-1]] += 0.5
+                            mirror[mirror.dtype.names[-1]] += 0.5
+                        elif ev == "write[elem]":
+                            arr.view(np.ndarray)[1] = arr.view(np.ndarray)[0]
+                            mirror[1] = mirror[0]
+                    except Exception as e:  # noqa: BLE001
+                        res.violation(f"copy_history|{L.sysname(system)}|{flavor}|raises", f"{list(hist[:k + 1])}: {ev} raised {type(e).__name__}: {e}", dict(base, history=list(hist)))
+                        ok = False
+                        break
+                    if type(arr) is not NPCLS[(flavor, dim)]:
+                        res.violation(f"copy_history|{L.sysname(system)}|{flavor}|class", f"after {list(hist[:k + 1])} the array is a {type(arr).__name__}", dict(base, history=list(hist)))
+                        ok = False
+                        break
+                if ok:
+                    ok = coherent(arr, mirror, list(hist), "current array") and all(coherent(a_, m_, list(hist), "array left behind by a copy") for a_, m_ in left)
+                if ok and d < depth:
+                    for e in COPY_EVENTS:
+                        nxt.append(hist + (e,))
+            frontier = nxt
+    res.sample({"kind": "copy_history", "sys": list(system), "events": COPY_EVENTS, "depth": depth})
+
+
 def run_shard(shard, tier):
     res = Result()
+    if shard.get("kind") == "copy_history":
+        check_copy_history(res, shard["dim"], tuple(shard["sys"]), shard["depth"])
+        return res
     if shard.get("kind") == "object_history":
         check_object_history(res, shard["dim"])
         return res
@@ -370,6 +459,9 @@ def run_shard(shard, tier):
 
 def replay(case):
     res = Result()
+    if case.get("kind") == "copy_history":
+        check_copy_history(res, case["dim"], tuple(case["sys"]), len(case["history"]))
+        return res
     if case.get("kind") == "object_history":
         check_object_history(res, case["dim"])
         return res
